@@ -41,8 +41,8 @@ Second == << 1000300, 1001700, 2000511, 2002205, 3000918, 3004021, 4001000, 5003
 
 \* ---- definition headers: every sequence of header tokens after `func` / `on` (the signature pre-pass sees
 \* these before anything else is parsed); a header is  code = len * 10000000 + digits base NH
-HdrVocab == << "f", " x", ":", "num", "[]", "{}", "any", "...", " ", "\n", "end", "key", " y:num", "string", "_", "1" >>
-NH == 16
+HdrVocab == << "f", " x", ":", "num", "[]", "{}", "any", "...", " ", "\n", "end", "key", " y:num", "string", "_", "1", "=", "." >>
+NH == 18
 RECURSIVE HdrSeq(_, _)
 HdrSeq(code, len) == IF len = 0 THEN <<>> ELSE <<HdrVocab[(code % NH) + 1]>> \o HdrSeq(code \div NH, len - 1)
 \* the body of the definition: nothing of the header, or the parameter x in every expression form, or in every
@@ -51,12 +51,13 @@ Bodies == << <<"    print 1\n">>,
              <<"    print x x[0] x[1:] x.a -x !x (x+1) (x and true) x.(num) [x] {a:x} (len x)\n", "    print x[0][1] x.a.b (x[0]) x[:1][0]\n">>,
              <<"    for c := range x\n", "        print c\n", "    end\n", "    x = 1\n", "    x[0] = 1\n", "    x.a = 1\n",
                "    while x\n", "        break\n", "    end\n", "    if x\n", "        print 1\n", "    end\n", "    y := x\n", "    print y\n",
-               "    for range x\n", "        print 1\n", "    end\n", "    for i := range x x x\n", "        print i\n", "    end\n", "    return x\n">> >>
+               "    for range x\n", "        print 1\n", "    end\n", "    for i := range x x x\n", "        print i\n", "    end\n", "    return x\n">>,
+             <<"    print x\n">> >>
 Header(kw, c, b) == <<kw>> \o HdrSeq(c % 10000000, c \div 10000000) \o <<"\n">> \o Bodies[b] \o <<"end\n", "print 2\n">>
 HdrKw == << "func ", "on ", "on key", "func f", "on down", "func f:num" >>
 
 Init == mu \in {<<s, e, 0>> : s \in DOMAIN Seeds, e \in Edits1} \cup {<<0 - k, h, 1>> : k \in {1, 2}, h \in Headers}
-               \cup {<<0 - k, h, b>> : k \in {3, 4, 5, 6}, h \in Headers2, b \in {2, 3}}
+               \cup {<<0 - k, h, b>> : k \in {3, 4, 5, 6}, h \in Headers2, b \in {2, 3, 4}}
                \cup {<<s, e2 \div 10, Second[(e2 % 10) + 1]>> : s \in DOMAIN Seeds, e2 \in Edits2}
 Next == FALSE /\ UNCHANGED mu
 
